@@ -52,7 +52,9 @@ def main():
     sh("git apply -R out/demo.diff", wt)
     rc_suite, o3 = step("existing suite with patch (must pass)", "cargo test --offline -p falcon-rust 2>&1 | grep -E '^test result|FAILED|failed' | head -8", wt)
     sh("git checkout -- . && git clean -fdq -e out -e target", wt)
-    demo_ok = ("test result: ok" in _last(log, "demo without patch")) and ("FAILED" in o2 or "failed" in o2)
+    import re as _re
+    applied = all(e["rc"] == 0 for e in log if e["step"] in ("apply demo", "apply patch"))
+    demo_ok = applied and ("test result: ok" in _last(log, "demo without patch")) and bool(_re.search(r"test result: FAILED|[1-9]\d* failed", o2))
     suite_ok = "FAILED" not in o3 and "test result: ok" in o3
 
     # machinery on /repo
